@@ -15,7 +15,7 @@ from kmip.services.server import policy as spolicy
 from vlib import coqprint as cp
 
 HEADER = ('From PK Require Import Version.Version Version.Fields Version.VersionCases.\n'
-          'From Coq Require Import List ZArith String.\nImport ListNotations.\nOpen Scope Z_scope.\n')
+          'From Coq Require Import String ZArith List.\nImport ListNotations.\nOpen Scope Z_scope.\n')
 
 OP = enums.Operation
 M = enums.CryptographicUsageMask
